@@ -28,7 +28,7 @@ EXPORTS = ["json", "json_opts", "xml", "xml_force", "provn", "get_provn", "rdf",
 
 def plan(tier, seed):
     return {
-        "cases": 5000 if tier == "quick" else 100000,
+        "cases": 5000 if tier == "quick" else 60000,
         "hashseeds": [0] if tier == "quick" else [0, 1, 2, 3],
         "timeout_s": 400 if tier == "quick" else 3400,
         "rule": "case = a c02-profile program (so that every exporter accepts most documents) + a random sequence of 4..9 export/"
